@@ -75,7 +75,7 @@ func TestVerifEnumC13Proxy(t *testing.T) {
 	}
 	r.Sample(string(replies[3]))
 
-	r.Begin("remoteIPFromSDP", "remoteIPFromSDP over hostile descriptions' sdp texts, SDP documents with 0-2 candidates from 14 addresses, their truncations, and c= line variants: no panic; result = first remote candidate address, else remote c= address, else nil")
+	r.Begin("remoteIPFromSDP", "remoteIPFromSDP over hostile descriptions' sdp texts, SDP documents with 0-2 candidates from 14 addresses, their truncations, c= line variants and a c= token grammar (7 heads x 15 tails incl. empty address, trailing/doubled blanks, tab, /ttl, junk; media/session level; CRLF/LF): no panic; result = first remote candidate address, else remote c= address, else nil")
 	addrs := []string{"10.0.0.1", "192.168.1.1", "127.0.0.1", "0.0.0.0", "::1", "fd00::1", "::ffff:10.0.0.1", "8.8.8.8", "1.2.3.4", "2001:db8::1", "abc.local", "999.1.1.1", "", "100.64.0.1"}
 	mk := func(cline string, cands []string) string {
 		var sb strings.Builder
@@ -134,6 +134,39 @@ func TestVerifEnumC13Proxy(t *testing.T) {
 				// whole description unparseable, for which only totality is required
 				wellFormed := cl == "" || len(strings.Fields(cl)) == 3
 				check("rip|"+cl+"|"+a+"|"+b, doc, wellFormed, want)
+			}
+		}
+	}
+	// c= line token grammar: every combination of a head and a tail (empty address, trailing blanks,
+	// doubled blanks, tab, /ttl, /ttl/count, junk), at media level, session level or both, with CRLF or
+	// LF line ends, with no candidate / a local one / a remote one: totality only
+	heads := []string{"c=IN IP4", "c=IN IP6", "c=IN IP7", "c=IN", "c=", "c=XX IP4", "c=IN  IP4"}
+	tails := []string{"", " ", "  ", " 5.6.7.8", " 5.6.7.8 ", "  5.6.7.8", " 5.6.7.8/127", " 5.6.7.8/127/3", " /", " x", "\t5.6.7.8", " 2001:db8::2", " 2001:db8::2/64", " 10.1.1.1", " 0.0.0.0 "}
+	for _, h := range heads {
+		for _, tl := range tails {
+			for place := 0; place < 3; place++ {
+				for _, nl := range []string{"\r\n", "\n"} {
+					for ci, cands := range [][]string{nil, {"10.0.0.1"}, {"8.8.8.8"}} {
+						if !r.Mine() {
+							continue
+						}
+						cl := h + tl
+						var sb strings.Builder
+						sb.WriteString("v=0" + nl + "o=- 1 2 IN IP4 127.0.0.1" + nl + "s=-" + nl)
+						if place != 0 {
+							sb.WriteString(cl + nl)
+						}
+						sb.WriteString("t=0 0" + nl + "m=application 9 UDP/DTLS/SCTP webrtc-datachannel" + nl)
+						if place != 1 {
+							sb.WriteString(cl + nl)
+						}
+						for i, a := range cands {
+							fmt.Fprintf(&sb, "a=candidate:%d 1 udp 2130706431 %s 5000 typ host%s", i+1, a, nl)
+						}
+						sb.WriteString("a=mid:0" + nl)
+						check(fmt.Sprintf("rip-cgrammar|%q|%d|%q|%d", cl, place, nl, ci), sb.String(), false, nil)
+					}
+				}
 			}
 		}
 	}
